@@ -126,20 +126,27 @@ class Evaluator(Folder):
             self._block(st.body if self._truth(st.test) else st.orelse)
         elif isinstance(st, ast.For):
             it = self.fold(st.iter)
+            proto = isinstance(it, Abstract) and hasattr(it, "loop_begin")
             try:
-                items = list(it)
+                items = it.loop_items() if proto else list(it)
             except TypeError:
                 raise Unfoldable("not iterable: " + unparse(st.iter))
             broke = False
-            for v in items:
-                self._assign(st.target, v)
-                try:
-                    self._block(st.body)
-                except _Break:
-                    broke = True
-                    break
-                except _Continue:
-                    continue
+            if proto:
+                it.loop_begin()
+            try:
+                for v in items:
+                    self._assign(st.target, v)
+                    try:
+                        self._block(st.body)
+                    except _Break:
+                        broke = True
+                        break
+                    except _Continue:
+                        continue
+            finally:
+                if proto:
+                    it.loop_end()
             if not broke:
                 self._block(st.orelse)
         elif isinstance(st, ast.While):
